@@ -137,3 +137,35 @@ impl<const N: usize> fmt::Write for Buf<N> {
         }
     }
 }
+
+
+/// An `Offset` whose `Display` writes nothing. `DelayedFormat::new_with_offset` stores `(offset.to_string(), offset.fix())`;
+/// the string is only read by `%Z`. With `FixedOffset` itself the `to_string()` drags core::fmt's padding machinery and a
+/// heap `String` into every formula although no harness looks at it.
+#[derive(Clone)]
+pub struct QuietOffset(pub chrono::FixedOffset);
+impl fmt::Debug for QuietOffset {
+    fn fmt(&self, _f: &mut fmt::Formatter) -> fmt::Result {
+        Ok(())
+    }
+}
+impl fmt::Display for QuietOffset {
+    fn fmt(&self, _f: &mut fmt::Formatter) -> fmt::Result {
+        Ok(())
+    }
+}
+impl chrono::Offset for QuietOffset {
+    fn fix(&self) -> chrono::FixedOffset {
+        self.0
+    }
+}
+
+/// Render `items` for the WALL-CLOCK reading (date, time) at `off` into a fixed buffer through the real
+/// `DelayedFormat::write_to` (exactly what `DateTime::format_with_items` builds from `overflowing_naive_local()`).
+pub fn render_wall<const N: usize>(d: chrono::NaiveDate, t: chrono::NaiveTime, off: chrono::FixedOffset, items: &[chrono::format::Item<'static>]) -> Buf<N> {
+    let mut buf = Buf::<N>::new();
+    let q = QuietOffset(off);
+    let df = chrono::format::DelayedFormat::new_with_offset(Some(d), Some(t), &q, items.iter());
+    assert!(df.write_to(&mut buf).is_ok() && !buf.overflow);
+    buf
+}
